@@ -10,10 +10,10 @@ import sys
 HERE = os.path.dirname(os.path.abspath(__file__))
 sys.path.insert(0, HERE)
 from sa import extract            # noqa: E402
-from sa.facts import FILES, fn_sigkey, fn_callees    # noqa: E402
+from sa.facts import FILES, fn_sigkey, fn_callees, const_digest    # noqa: E402
 
 fdir, info = extract.facts_for('/repo')
-out = {'fns': {}, 'adts': {}, 'tree_hash': info.get('tree_hash')}
+out = {'fns': {}, 'adts': {}, 'consts': {}, 'tree_hash': info.get('tree_hash')}
 for fname in FILES:
     raw = json.load(open(os.path.join(fdir, fname)))
     if raw['kind'] in ('bin', 'build'):
@@ -24,5 +24,7 @@ for fname in FILES:
         out['fns'][fr['pretty']] = {'sig': fn_sigkey(fr), 'callees': fn_callees(fr), 'crate': raw['crate']}
     for a in raw['adts']:
         out['adts'][a['path']] = [[(f['name'], f['ty']) for f in v['fields']] for v in a['variants']]
+    for c in raw['consts']:
+        out['consts'][c['path']] = [c['ty'], const_digest(c['value'])]
 json.dump(out, open(os.path.join(HERE, 'rules', 'anchor_baseline.json'), 'w'), indent=0, sort_keys=True)
 print(len(out['fns']), 'functions,', len(out['adts']), 'types')
